@@ -148,7 +148,11 @@ func (s *confswarm) drawArgs(w *World) {
 	case "staticroute":
 		var r []string
 		for i, k := 0, n(0, 3); i < k; i++ {
-			item := pick(t, argCIDR4) + "," + pick(t, argAddr4)
+			gw := pick(t, argAddr4)
+			if t.Draw(3) != 0 {
+				gw = []string{"10.0.0.1", "192.0.2.200", "10.0.0.254"}[t.Pick(3)] // mostly valid gateways, so that odd destinations reach the wire
+			}
+			item := pick(t, argCIDR4) + "," + gw
 			switch t.Draw(8) {
 			case 0:
 				item = pick(t, argCIDR4)
